@@ -249,7 +249,23 @@ def check(ctx):
                "send_handler then takes its batch branch whose get_outgoing_messages() yields nothing, the send thread dies and the "
                "requests get no answer", key="handoff_lock")
     sm = ctx.need(br.methods.get("send_message"), "Bromelia.send_message")
-    outs = [c for c in fn_calls(sm) if call_name(c).endswith(".set_outgoing_message")]
-    ctx.decide(len(outs) == 1, "R-MUSTPASS/single-put", f"{br.qual}.send_message", br.where(sm),
-               "send_message publishes through one set_outgoing_message call",
-               f"send_message has {len(outs)} set_outgoing_message calls", key="publish_once", nontrivial=False)
+    # on every path that returns normally the message is published through exactly one set_outgoing_message call
+    from ..astutil import strip_doc as _sd
+    counts = set()
+    try:
+        for p_ in sym.Interp(log_calls=True).run(_sd(sm.body), sym.PathState({a_.arg: sym.S(a_.arg) for a_ in sm.args.args if a_.arg != "self"}, [], [])):
+            if p_.term == "raise":
+                continue
+            seen_ = set()
+            for e in p_.effects:
+                if e[0] in ("ecall", "call") and isinstance(e[1], tuple) and e[1] and e[1][0] == "call" \
+                        and sym.show(e[1][1]).endswith(".set_outgoing_message"):
+                    seen_.add(id(e[2]))
+            running = any(tv is True and sym.show(c).endswith(".is_running()") for c, tv in p_.conds)
+            counts.add(len(seen_) if running else 1 - len(seen_) if len(seen_) == 0 else len(seen_) + 1)
+    except sym.TooMany:
+        counts = {-1}
+    # (a path on which the worker is not running publishes nothing: counted as conforming; one that publishes anyway is not)
+    ctx.decide(counts == {1}, "R-MUSTPASS/single-put", f"{br.qual}.send_message", br.where(sm),
+               "send_message publishes through one set_outgoing_message call on every path",
+               f"send_message publishes through {sorted(counts)} set_outgoing_message calls on its returning paths", key="publish_once", nontrivial=False)
